@@ -740,7 +740,8 @@ fn containers(strlen: usize) -> Vec<Cont> {
     }
     v.push(Cont::Null);
     v.push(Cont::Obj(vec![]));
-    let keys = [tstr("a"), int(0), MVal::Float(0.0), MVal::Null, MVal::Arr(vec![int(1)]), MVal::Obj(vec![(tstr("b"), int(1))]), tstr("start"), int(-1), int(1)];
+    // (the last key is an object with two entries: positions name it in both entry orders)
+    let keys = [tstr("a"), int(0), MVal::Float(0.0), MVal::Null, MVal::Arr(vec![int(1)]), MVal::Obj(vec![(tstr("b"), int(1))]), tstr("start"), int(-1), int(1), MVal::Obj(vec![(tstr("p"), int(1)), (tstr("q"), int(2))])];
     for (a, ka) in keys.iter().enumerate() {
         v.push(Cont::Obj(vec![(ka.clone(), int(100))]));
         for (b, kb) in keys.iter().enumerate() {
@@ -787,6 +788,8 @@ fn junk_positions() -> Vec<MVal> {
         MVal::Obj(vec![(tstr("start"), int(1))]),
         MVal::Obj(vec![(tstr("start"), tstr("x"))]),
         MVal::Obj(vec![(tstr("end"), int(-1)), (tstr("start"), MVal::Null)]),
+        MVal::Obj(vec![(tstr("p"), int(1)), (tstr("q"), int(2))]),
+        MVal::Obj(vec![(tstr("q"), int(2)), (tstr("p"), MVal::Float(1.0))]),
         MVal::Bool(true),
     ]
 }
@@ -863,7 +866,12 @@ fn gen_cont(src: &mut Src) -> Cont {
 fn check_random(src: &mut Src) -> CaseResult {
     let c = gen_cont(src);
     let (i, j) = match &c {
-        Cont::Obj(o) if !o.is_empty() && src.bool() => (src.pick(o).0.clone(), gen_pos(src)),
+        // an existing key, half of the time spelled differently (other number representation,
+        // text/byte twin, other entry order of an object key)
+        Cont::Obj(o) if !o.is_empty() && src.bool() => {
+            let k = src.pick(o).0.clone();
+            (if src.bool() { crate::c08::twin(src, &k) } else { k }, gen_pos(src))
+        }
         _ => (gen_pos(src), gen_pos(src)),
     };
     let sample = src.sample;
